@@ -231,8 +231,12 @@ fn scenario(seed: u64, variant: &str, trigger: &str, rep: &Report) -> Result<(),
             let deadline = now_ns() + 8_000_000_000;
             loop {
                 let evs = cell.pg().events();
-                let stored = evs.iter().find(|e| e.1 == "reload.stored" && e.0 > t_start + 1_000_000).map(|e| e.0);
-                if let Some(ts) = stored {
+                // an autoreload tick may have READ the old file just before the rewrite and store it
+                // afterwards: only the second store after the rewrite is certain to be the new file
+                let need = if trigger == "autoreload" { 2 } else { 1 };
+                let stored: Vec<u64> = evs.iter().filter(|e| e.1 == "reload.stored" && e.0 > t_start + 1_000_000).map(|e| e.0).collect();
+                if stored.len() >= need {
+                    let ts = stored[need - 1];
                     if evs.iter().any(|e| e.1 == "reload.end" && e.0 >= ts) {
                         break;
                     }
